@@ -57,7 +57,8 @@ def gen_scenario(rng):
         during.append((t, recs))
     during.sort(key=lambda d: d[0])
     jitter = [rng.choice([20, 57, 120]) for _ in range(40)]
-    return dict(timeout=timeout, forced=forced, pre=pre, during=during, jitter=jitter, lead=max([-p[0] for p in pre] + [0]) + 20000)
+    return dict(timeout=timeout, forced=forced, pre=pre, during=during, jitter=jitter, lead=max([-p[0] for p in pre] + [0]) + 20000,
+                again=rng.choice([None, None, None, 0, 100, 500, 1200]))
 
 
 def vinfo(info):
@@ -168,6 +169,26 @@ def run_scenario(sc):
                 labels[last] = labels[last].replace('RND', cz(draws()))
                 obs[last].append([2, sim.now, bool(ok)])
                 res['info'] = vinfo(info)
+                res['final_info'] = res['info']
+                if sc.get('again') is not None:
+                    # the application tries again: a second lookup of the same instance, `again` ms after the first returned (its questions
+                    # may sit in the question history, the cache holds whatever arrived meanwhile)
+                    await sim.sleep(sc['again'])
+                    mark = len(res.get('sends', []))
+                    info2 = AsyncServiceInfo(T, NAME)
+                    state['info'] = info2
+                    state['turns'] = 0
+                    t2 = sim.now
+                    begin(f"IStart {ctext(NAME)} {cz(sim.now)} {cz(sc['timeout'])} RND {copt(sc['forced'], cbool)}")
+                    state['start_idx'] = len(labels) - 1
+                    state['rnd_mark'] = len(sim.random_log)
+                    ok2 = await info2.async_request(b.zc, sc['timeout'], qt)
+                    last = state.get('turn_idx') if state['turns'] else state['start_idx']
+                    labels[last] = labels[last].replace('RND', cz(draws()))
+                    obs[last].append([2, sim.now, bool(ok2)])
+                    res['second'] = dict(t0=t2, t_ret=sim.now, result=bool(ok2), info=vinfo(info2), sends=res.get('sends', [])[mark:])
+                    res['sends'] = res.get('sends', [])[:mark]
+                    res['final_info'] = res['second']['info']
                 await inj
                 await b.azc.async_close()
             sim.run(main())
@@ -177,7 +198,7 @@ def run_scenario(sc):
         res['escaped'] = list(sim.loop.escaped)
     res['labels'] = labels
     # observations: one per IStart/ITurn label, then the final info
-    res['obs'] = [o for o in obs if o is not None] + [res['info']]
+    res['obs'] = [o for o in obs if o is not None] + [res['final_info']]
     res.setdefault('sends', [])
     return res
 
@@ -267,6 +288,27 @@ def oracle(sc, res):
                     any(d['kind'] == 'KAddress' and d['name'].lower() == host for d in live):
                 return (f"the lookup failed at its deadline although an unexpired SRV record of the instance and an unexpired address record of "
                         f"its host {host} had reached the instance before the deadline")
+    for which, r in (('', res), ('second ', res.get('second'))):
+        if r is None:
+            continue
+        # a lookup that cannot answer from the cache and opens with a QU query (no question type forced, or QU forced) transmits it at once:
+        # the address questions are always asked, and QU questions are never suppressed by the question history
+        if r['t_ret'] > r['t0'] and sc['forced'] is not False and not (r['sends'] and r['sends'][0][0] == r['t0']):
+            return f"the {which}lookup did not return at once, yet transmitted no query at its start (queries at {[t - r['t0'] for t, _ in r['sends']]})"
+    r2 = res.get('second')
+    if r2 is not None:
+        if r2['t_ret'] > r2['t0'] + sc['timeout']:
+            return f"second lookup returned at +{r2['t_ret'] - r2['t0']}, later than its timeout {sc['timeout']}"
+        if r2['result'] != bool(r2['info'][6] or r2['info'][7]):
+            return f"second lookup returned {r2['result']} while holding addresses {r2['info'][6]}, {r2['info'][7]}"
+        if sc['forced'] is False:
+            # all queries QM: the question history (the first lookup's own QM queries less than a second ago) may rightly suppress them
+            if any(q[2] for _, qs in r2['sends'] for q in qs):
+                return "second lookup: a QU question although QM was forced"
+        else:
+            why2 = oracle_questions(sc, r2)
+            if why2:
+                return 'second lookup: ' + why2
     return oracle_questions(sc, res)
 
 
